@@ -162,8 +162,7 @@ def rw_blank_remove(lay, rng):
 
 def rw_comment_eol_add(lay, rng):
     c = [i for i in range(len(lay.toks) + 1)
-         if (i == len(lay.toks) or lay.toks[i]['kind'] == 10) and not lay.eolk(i - 1)
-         and not (i == len(lay.toks) and lay.toks and lay.toks[-1]['kind'] == 10 and False)]
+         if (i == len(lay.toks) or lay.toks[i]['kind'] == 10) and not lay.eolk(i - 1)]
     if not c:
         return None
     i = rng.choice(c)
@@ -314,7 +313,7 @@ def rw_split(lay, rng):
         if t['kind'] != 6:
             continue
         a, b = lay.line_of(i)
-        if i == a or i == b - 1 and False:
+        if i == a:
             continue
         if lay.simple_line(a, b, True):
             c.append(i)
